@@ -72,8 +72,8 @@ CLAIMED["C19"] = ("iteration-order insensitivity: effect classification of every
  "Not decided: determinism of golang.org/x/tools/imports.",
  "DESIGN.md §3 C19")
 CLAIMED["C03"] = ("structural rules on the syntax tree of the generated front-end pigeon.go and on ast.CharClassMatcher.parse",
- "Narrow claim: three structural necessary conditions of 'the front-end builds the denoted AST' — node constructors positioned by the start of the match, the rule-reference chain realises the documented binding strength, operator/escape tables agree between grammar and decoder.",
- "Not decided (behavioural, no printer in the repository): acceptance of all layouts, comments/terminators, decoded escape values, print/re-parse round trip.",
+ "Narrow claim: structural necessary conditions of 'the front-end builds the denoted AST' — node constructors positioned by the start of the match, the rule-reference chain realises the documented binding strength, operator/escape tables agree between grammar and decoder, and the layout discipline of the grammar literal (adjacent tokens of every syntactic rule separated by the layout rule, which accepts white space, line ends and comments).",
+ "Not decided (behavioural, no printer in the repository): acceptance of every text as a whole (terminators, nested code blocks), decoded escape values, print/re-parse round trip.",
  "DESIGN.md §3 C03")
 CLAIMED["C10"] = ("partial evaluation of the standard template variant + syntactic (token) equality with the optimized variant for all 8 parameter settings; who-may-read rule for the builder flag",
  "Complete static argument: the optimized runtime is, declaration by declaration, the standard runtime specialised to the default runtime options with provably non-interfering slices removed; the flag influences nothing else. Holds for every grammar and input modulo the soundness of the folding rules.",
@@ -84,7 +84,7 @@ CLAIMED["C15"] = ("sibling agreement between the general class matcher and Basic
  "Not decided: equality of the two procedures over all classes × 128 runes (observation O2: [Z-a]i differs; no sound general rule in this technique family).",
  "DESIGN.md §3 C15")
 CLAIMED["C20"] = ("artifact consistency by static comparison (string tables vs template source, gofmt-normalised static tail of all 47 generated parsers vs the variant for the Makefile flags, recipe coverage, position anchors vs .peg bytes)",
- "Decides the artifact half: what regeneration would establish — no checked-in generated file is stale with respect to the template, its recipe's flags, or its grammar's node positions.",
+ "Decides the artifact half: what regeneration would establish — no checked-in generated file is stale with respect to the template, its recipe's flags, or its grammar's node positions; plus sibling-agreement rules between the two front-ends (shared grammar rules, literal decoding, verbatim code blocks, binding strength of the hand-written parser).",
  "Not decided: AST equality of the hand-written bootstrap front-end and the generated one over all inputs; byte identity of a real regeneration (imports.Process formatting).",
  "DESIGN.md §3 C20")
 NA_REASON = {}
